@@ -145,6 +145,24 @@ func main() {
 		}
 		return
 	}
+	if name == "sim-pause-faults" {
+		res := report.New(name, *seed, *tier)
+		nomodel := os.Getenv("WFH_NOMODEL") != ""
+		res.NoModel = nomodel
+		err := sim.PauseFaultSuite(*seed, *tier, res, nomodel)
+		res.DistinctNontrivial = len(res.Nontrivial)
+		res.Exhaustive = true
+		if *out != "" {
+			res.Write(*out)
+		}
+		fmt.Printf("suite=%s evaluations=%d distinct_nontrivial=%d model_lines=%d violations=%d disagreements=%d\n",
+			name, res.Evaluations, res.DistinctNontrivial, res.ModelLines, len(res.Violations), len(res.Disagreements))
+		if err != nil {
+			fmt.Fprintln(os.Stderr, "suite error:", err)
+			os.Exit(3)
+		}
+		return
+	}
 	if name == "sim-recovery" {
 		res := report.New(name, *seed, *tier)
 		nomodel := os.Getenv("WFH_NOMODEL") != ""
